@@ -293,6 +293,16 @@ class FuncRef(object):
         return 'FuncRef(%s)' % self.fi.qualname
 
 
+class PartialCall(object):
+    """functools.partial over a builtin (partial(next, iterator)): calling it applies the builtin to the stored arguments."""
+
+    def __init__(self, target, pre_args):
+        self.target, self.pre_args = target, tuple(pre_args)
+
+    def __repr__(self):
+        return 'partial(%r, %s)' % (self.target, ', '.join(repr(a) for a in self.pre_args))
+
+
 class ClassRef(object):
     def __init__(self, name):
         self.name = name
@@ -1277,6 +1287,8 @@ class Interp(object):
             return callee.recv.call_method(callee.name, args, kwargs, self, frame, node)
         if isinstance(callee, Native) and hasattr(callee, 'call'):
             return callee.call(args, kwargs, self, frame, node)
+        if isinstance(callee, PartialCall):
+            return self.apply(text, callee.target, list(callee.pre_args) + list(args), kwargs, node, frame)
         if isinstance(callee, ClassRef):
             return self.construct(callee.name, args, kwargs, node, frame)
         if isinstance(callee, tuple) and callee and callee[0] == 'builtin':
@@ -1364,6 +1376,11 @@ class Interp(object):
         if args and isinstance(args[0], FuncRef) and not kwargs:
             f = args[0]
             return FuncRef(f.fi, bound=f.bound, pre_args=tuple(f.pre_args) + tuple(args[1:]))
+        if args and isinstance(args[0], tuple) and len(args[0]) == 2 and args[0][0] == 'builtin' and not kwargs:
+            return PartialCall(args[0], args[1:])
+        if args and isinstance(args[0], Top) and args[0].kind.startswith('name:') and args[0].kind[5:] in ('next', 'len', 'int', 'str', 'max', 'min') and not kwargs:
+            # a builtin named as a value
+            return PartialCall(('builtin', args[0].kind[5:]), args[1:])
         return Top('partial')
 
     def unknown_method(self, um, args, kwargs, node, frame):
